@@ -17,6 +17,7 @@ from .sym import PyExc, Unsupported, is_sym
 from .exec import BoundModel, Builtin, Obj, Opaque, Frame
 
 _ids = itertools.count()
+_CUR = {'I': None}     # interpreter of the current path (for obligations raised inside array writes)
 
 T_NUMPY = 'numpy: element-wise semantics, basic-index views share memory, arithmetic/fancy-index/astype/copy/append allocate (view-vs-copy table)'
 A_NONAN = 'A-NONAN: inf/nan are not modelled; element-wise division assumes finite results'
@@ -83,6 +84,8 @@ class SArr:
         b = self.buf
         old = b.get
         bidx = self.imap(tuple(idx))
+        for gname, g in getattr(b, 'guards', []):
+            _CUR['I'].ctx.prove(gname + '/frame:write-inside-modifies', g(bidx), 'frame')
         b.get = lambda q: _ite(sym.And(*[sym.eq(x, y) for x, y in zip(q, bidx)]), val, old(q))
         b.writes += 1
 
@@ -91,6 +94,11 @@ class SArr:
         b = self.buf
         old = b.get
         inv = self.inv
+        for gname, g in getattr(b, 'guards', []):
+            qq = tuple(z3.Int('wg_%d_%d' % (k, next(_ids))) for k in range(len(b.shape)))
+            inview, vv = inv(qq)
+            cond = sym.Implies(sym.And(inview, cond_fn(vv), *[sym.And(sym.ge(x, 0), sym.lt(x, n)) for x, n in zip(qq, b.shape)]), g(qq))
+            _CUR['I'].ctx.prove(gname + '/frame:write-inside-modifies', z3.ForAll(list(qq), cond) if is_sym(cond) else cond, 'frame')
 
         def newget(q):
             inview, v = inv(q)
@@ -119,7 +127,8 @@ class SArr:
         return out
 
     def havoc(self, I):
-        f = z3.Function('havoc_arr_%d' % next(_ids), *([z3.IntSort()] * max(1, self.buf_ndim()) + [z3.RealSort() if self.kind == 'f' else z3.IntSort()]))
+        srt = {'f': z3.RealSort(), 'i': z3.IntSort(), 'b': z3.BoolSort()}.get(self.kind, z3.RealSort())
+        f = z3.Function('havoc_arr_%d' % next(_ids), *([z3.IntSort()] * max(1, self.buf_ndim()) + [srt]))
         self.buf.get = lambda q: f(*[sym.to_z3(x) for x in q]) if q else f(z3.IntVal(0))
         self.buf.writes += 1
 
@@ -656,8 +665,12 @@ def interp(I, x, xp, fp, left=None, right=None):
         k = cell(sym.to_z3(v))
         last = sym.sub(n, 1)
         inside = sym.And(sym.ge(v, xp.get(0)), sym.lt(v, xp.get(last)))
-        return sym.Implies(inside, sym.And(sym.ge(k, 0), sym.lt(k, last), sym.le(xp.get(k), v), sym.lt(v, xp.get(sym.add(k, 1)))))
-    I.ctx.ghost.setdefault('interp', []).append(dict(cell=lambda v: cell(sym.to_z3(sym.to_real(v))), xp=xp, fp=fp, n=n))
+        val = value(v)
+        lo = sym.min_(fp.get(k), fp.get(sym.add(k, 1)))
+        hi = sym.max_(fp.get(k), fp.get(sym.add(k, 1)))
+        return sym.Implies(inside, sym.And(sym.ge(k, 0), sym.lt(k, last), sym.le(xp.get(k), v), sym.lt(v, xp.get(sym.add(k, 1))),
+                                           sym.ge(val, lo), sym.le(val, hi)))
+    I.ctx.ghost.setdefault('interp', []).append(dict(cell=lambda v: cell(sym.to_z3(sym.to_real(v))), xp=xp, fp=fp, n=n, value=value, axiom=cell_axiom))
     if isinstance(x, SArr):
         r = SArr(x.shape, lambda q: value(x.get(q)), 'f', tag='interp')
         r.axiom = lambda q: cell_axiom(x.get(q))   # instantiate for the element under study
